@@ -252,6 +252,18 @@ Proof.
   - apply IH. exact H.
 Qed.
 
+(* C17's log only grows *)
+Definition Mono (g g' : RM.gc) : Prop := forall p, ever p (RM.evs g) = true -> ever p (RM.evs g') = true.
+Lemma Mono_refl g : Mono g g. Proof. intros p H; exact H. Qed.
+Lemma Mono_trans a b c : Mono a b -> Mono b c -> Mono a c.
+Proof. intros H1 H2 p H. apply H2, H1, H. Qed.
+Lemma Mono_same g g' : RM.evs g' = RM.evs g -> Mono g g'.
+Proof. intros He p H. rewrite He. exact H. Qed.
+Lemma Mono_cons g g' e : RM.evs g' = e :: RM.evs g -> Mono g g'.
+Proof. intros He p H. rewrite He. simpl. rewrite H. apply orb_true_r. Qed.
+Lemma Mono_app g g' l : RM.evs g' = l ++ RM.evs g -> Mono g g'.
+Proof. intros He p H. rewrite He. unfold ever. rewrite existsb_app. fold (ever p (RM.evs g)). rewrite H. apply orb_true_r. Qed.
+
 Lemma ever_cnt_fin p l : ever p l = false -> cnt_fin p l = 0.
 Proof.
   induction l as [|e l IH]; simpl; auto. intros H. apply orb_false_iff in H. destruct H as [H1 H2].
@@ -401,7 +413,7 @@ Section Glue.
     forall A g s q g', Tab g -> Rel g s -> GInv A s ->
       ~ In (idn q) (regids s) -> ~ In (idn q) (pids s) -> fin_count s (idn q) = 0 -> info s (idn q) <> None ->
       measure s < n ->
-      Cfinw (Crem f) g q = Some g' -> Tab g' /\ Rel g' (fin s (idn q)).
+      Cfinw (Crem f) g q = Some g' -> Tab g' /\ Rel g' (fin s (idn q)) /\ Mono g g'.
 
   Lemma cnt_fin_log_other g e p : (forall q, e <> RM.EvFin q) -> cnt_fin p (RM.evs (RM.log g e)) = cnt_fin p (RM.evs g).
   Proof. intros H. simpl. destruct e; try reflexivity. exfalso. apply (H p0). reflexivity. Qed.
@@ -410,10 +422,10 @@ Section Glue.
   Lemma sim_rem_tail A g1 s1 g' :
     Tab g1 -> Rel g1 s1 -> GInv A s1 ->
     match Cless g1 with None => None | Some g2 => Some (RM.new_mitems g2) end = Some g' ->
-    Tab g' /\ Rel g' (set_mitems (mitems_rule (nitems s1)) s1).
+    Tab g' /\ Rel g' (set_mitems (mitems_rule (nitems s1)) s1) /\ Mono g1 g'.
   Proof.
     intros T R G H. destruct (tab_resize_less g1 T) as [l' [Hr [T2 Hh]]]. rewrite Hr in H.
-    inversion H; subst g'. clear H. split.
+    inversion H; subst g'. clear H. split; [|split; [|apply Mono_same; reflexivity]].
     - apply (tab_fields (RM.set_slots g1 l')); auto.
     - pose proof (rel_len g1 s1 T R (g_reg_nodup _ _ G)) as Hlen.
       assert (R2 : Rel (RM.set_slots g1 l') s1) by (apply (rel_fields g1); auto).
@@ -422,26 +434,28 @@ Section Glue.
 
   Lemma sim_rem_step fin n f : FinSim fin n f -> forall A g s p g',
     Tab g -> Rel g s -> GInv A s -> measure s < n ->
-    Crem (S f) g p = Some g' -> Tab g' /\ Rel g' (gc_rem true fin s (idn p)).
+    Crem (S f) g p = Some g' -> Tab g' /\ Rel g' (gc_rem true fin s (idn p)) /\ Mono g g'.
   Proof.
     intros [HF HS] A g s p g' T R G Hm H.
     cbn [RM.gc_rem] in H.
     destruct (RM.running g) eqn:Hrun; simpl negb in H; cbv iota in H.
-    2:{ inversion H; subst. unfold gc_rem. rewrite (rel_run g' s R), Hrun. simpl. auto. }
+    2:{ inversion H; subst. unfold gc_rem. rewrite (rel_run g' s R), Hrun. simpl. split; [auto|]. split; [auto | apply Mono_refl]. }
     set (gl := RM.log g (RM.EvRem p)) in *.
     assert (Tl : Tab gl) by (apply (tab_fields g); auto).
     assert (Rl : Rel gl s).
     { apply (rel_fields g); try reflexivity; auto; intros x; tauto. }
     match type of H with match ?x with _ => _ end = _ => destruct x as [g1|] eqn:Hap; [|discriminate] end.
-    cut (exists s1, Tab g1 /\ Rel g1 s1 /\ GInv A s1 /\
+    cut (exists s1, Tab g1 /\ Rel g1 s1 /\ GInv A s1 /\ Mono gl g1 /\
            gc_rem true fin s (idn p) = set_mitems (mitems_rule (nitems s1)) s1).
-    { intros [s1 [T1 [R1 [G1 Heq]]]]. rewrite Heq.
-      unfold gc_rem in Heq. eapply sim_rem_tail; eauto. }
+    { intros [s1 [T1 [R1 [G1 [M1 Heq]]]]]. rewrite Heq.
+      destruct (sim_rem_tail A g1 s1 g' T1 R1 G1 H) as (Ta & Ra & Ma).
+      split; [exact Ta|]. split; [exact Ra|].
+      apply (Mono_trans g gl); [apply (Mono_cons g gl (RM.EvRem p)); reflexivity|]. apply (Mono_trans gl g1); assumption. }
     unfold gc_rem. rewrite (rel_run g s R), Hrun. simpl negb. cbv iota.
     change (RM.nslots gl) with (RM.nslots g) in Hap. change (RM.pending gl) with (RM.pending g) in Hap.
     destruct (Nat.eqb_spec (RM.nslots g) 0) as [Hz|Hnz].
     - (* nothing was ever registered *)
-      inversion Hap; subst g1. exists s. split; [exact Tl|]. split; [exact Rl|]. split; [exact G|].
+      inversion Hap; subst g1. exists s. split; [exact Tl|]. split; [exact Rl|]. split; [exact G|]. split; [apply Mono_refl|].
       assert (Hpe : RM.pending g = []) by (apply (t_empty g T); exact Hz).
       assert (Hnr : in_reg s (idn p) = false).
       { destruct (in_reg s (idn p)) eqn:E; [|reflexivity]. apply (rel_in_reg g s p R) in E.
@@ -460,9 +474,10 @@ Section Glue.
         { constructor; try apply Rl.
           - unfold s'. simpl. rewrite (rel_pend g s R). apply abs_pend_null. }
         assert (Hinf : info s' (idn p) <> None) by (rewrite I1; apply (g_info _ _ G); right; exact Hin).
-        destruct (HS A g0 s' p g1 T0 R0 G1 N1 N2 F0 Hinf ltac:(unfold measure in *; lia) Hap) as [Tg1 Rg1'].
+        destruct (HS A g0 s' p g1 T0 R0 G1 N1 N2 F0 Hinf ltac:(unfold measure in *; lia) Hap) as (Tg1 & Rg1' & Mg1).
         destruct (HF A s' (idn p) G1 N1 N2 F0 Hinf ltac:(unfold measure in *; lia)) as (G2 & _).
-        exists (fin s' (idn p)). split; [exact Tg1|]. split; [exact Rg1'|]. split; [exact G2 | reflexivity].
+        exists (fin s' (idn p)). split; [exact Tg1|]. split; [exact Rg1'|]. split; [exact G2|].
+        split; [apply (Mono_trans gl g0); [apply Mono_same; reflexivity | exact Mg1] | reflexivity].
       + (* table lookup *)
         change (RM.slots g0) with (RM.slots g) in Hap. change (RM.nslots g0) with (RM.nslots g) in Hap.
         change (RM.nitems g0) with (RM.nitems g) in Hap.
@@ -508,14 +523,15 @@ Section Glue.
               + intros [x0 [Hx0 [Hi0 Hr0]]]. apply Hh1 in Hx0. destruct Hx0 as [Hx0 Hne]. split; [exists x0; auto|].
                 apply negb_true_iff, Nat.eqb_neq. rewrite <- Hi0. intros Hp'. apply Hne. rewrite Hpe. apply idn_inj. exact Hp'. }
           assert (Hinf : info s' (idn p) <> None) by (rewrite I1; apply (g_info _ _ G); left; exact Hreg).
-          destruct (HS A gd s' p g1 Td Rd G1 N1 N2 F0 Hinf ltac:(unfold measure in *; lia) Hap) as [Tg1 Rg1'].
+          destruct (HS A gd s' p g1 Td Rd G1 N1 N2 F0 Hinf ltac:(unfold measure in *; lia) Hap) as (Tg1 & Rg1' & Mg1).
           destruct (HF A s' (idn p) G1 N1 N2 F0 Hinf ltac:(unfold measure in *; lia)) as (G2 & _).
-          exists (fin s' (idn p)). split; [exact Tg1|]. split; [exact Rg1'|]. split; [exact G2 | reflexivity].
+          exists (fin s' (idn p)). split; [exact Tg1|]. split; [exact Rg1'|]. split; [exact G2|].
+          split; [apply (Mono_trans gl gd); [apply Mono_same; reflexivity | exact Mg1] | reflexivity].
         * inversion Hap; subst g1.
           assert (Hir : in_reg s (idn p) = false).
           { destruct (in_reg s (idn p)) eqn:E; [|reflexivity]. apply (rel_in_reg g s p R) in E.
             destruct E as [r [e [[i [h Hat]] [Hp' _]]]]. exfalso. apply (Hres i h e Hat). exact Hp'. }
-          rewrite Hir. exists s. split; [exact T0|]. split; [exact R0|]. split; [exact G | reflexivity].
+          rewrite Hir. exists s. split; [exact T0|]. split; [exact R0|]. split; [exact G|]. split; [apply Mono_same; reflexivity | reflexivity].
   Qed.
 
   Lemma cnt_fin_log_fin g q p : cnt_fin p (RM.evs (RM.log g (RM.EvFin q))) = (if N.eqb q p then 1 else 0) + cnt_fin p (RM.evs g).
@@ -566,14 +582,15 @@ Section Glue.
     all: assert (Tl : Tab gl) by (apply (tab_fields g); auto).
     - (* C17 fuel 0: only a destructor that deletes nothing can succeed *)
       destruct (RP.d_owns d q) as [|t ts]; [|discriminate].
-      inversion H; subst g'. split; [exact Tl | apply rel_add_free; exact Rl].
+      inversion H; subst g'. split; [exact Tl |]. split; [apply rel_add_free; exact Rl | apply (Mono_cons g gl (RM.EvFin q)); reflexivity].
     - destruct (RP.d_owns d q) as [|t ts] eqn:Hown.
-      + inversion H; subst g'. split; [exact Tl | apply rel_add_free; exact Rl].
+      + inversion H; subst g'. split; [exact Tl |]. split; [apply rel_add_free; exact Rl | apply (Mono_cons g gl (RM.EvFin q)); reflexivity].
       + assert (ts = []) by (destruct (boxlike q) as [Hb|[t' Hb]]; rewrite Hown in Hb; [discriminate | inversion Hb; reflexivity]).
         subst ts.
         assert (Hm1 : measure s1 < fm') by (simpl in M1; lia).
-        destruct (sim_rem_step (finF fm') fm' f (IH fm') (idn q :: A) gl s1 t g' Tl Rl G1 Hm1 H) as [T2 R2].
-        split; [exact T2|]. apply rel_finish; [exact R2|].
+        destruct (sim_rem_step (finF fm') fm' f (IH fm') (idn q :: A) gl s1 t g' Tl Rl G1 Hm1 H) as (T2 & R2 & M2).
+        split; [exact T2|]. split; [|apply (Mono_trans g gl); [apply (Mono_cons g gl (RM.EvFin q)); reflexivity | exact M2]].
+        apply rel_finish; [exact R2|].
         destruct (LifecycleProofs.gc_rem_ok _ _ (finalise_ok fm') (idn q :: A) s1 (idn t) G1 Hm1) as (G2 & _).
         destruct (g_prog _ _ G2 (idn q) (or_introl eq_refl)). lia.
   Qed.
@@ -591,7 +608,7 @@ Section Glue.
      (pending list not empty) — on the concrete table is GC_Rem of the life-cycle machine *)
   Theorem glue_rem : forall f A g s p g',
     Tab g -> Rel g s -> GInv A s ->
-    Crem f g p = Some g' -> Tab g' /\ Rel g' (gc_rem true finT s (idn p)).
+    Crem f g p = Some g' -> Tab g' /\ Rel g' (gc_rem true finT s (idn p)) /\ Mono g g'.
   Proof.
     intros [|f] A g s p g' T R G H; [discriminate|].
     apply (sim_rem_step finT (S (measure s)) f (finsim_top _ f) A g s p g' T R G); [lia | exact H].
@@ -601,7 +618,7 @@ Section Glue.
   Theorem glue_finalise : forall f A g s q g',
     Tab g -> Rel g s -> GInv A s ->
     ~ In (idn q) (regids s) -> ~ In (idn q) (pids s) -> fin_count s (idn q) = 0 -> info s (idn q) <> None ->
-    Cfinw (Crem f) g q = Some g' -> Tab g' /\ Rel g' (finT s (idn q)).
+    Cfinw (Crem f) g q = Some g' -> Tab g' /\ Rel g' (finT s (idn q)) /\ Mono g g'.
   Proof.
     intros f A g s q g' T R G Hr Hp Hf Hi H.
     destruct (finsim_top (S (measure s)) f) as [_ HS].
@@ -614,10 +631,10 @@ Section Glue.
   (* the finaliser loop of GC_Sweep, destructor-issued removals included *)
   Lemma sim_fin_loop fin n f : FinSim fin n f -> forall c k A g s g',
     Tab g -> Rel g s -> GInv A s -> measure s < n ->
-    Cfinloop c k f g = Some g' -> Tab g' /\ Rel g' (sweep_loop true fin c k s).
+    Cfinloop c k f g = Some g' -> Tab g' /\ Rel g' (sweep_loop true fin c k s) /\ Mono g g'.
   Proof.
     intros [HF HS]. induction c as [|c IH]; intros k A g s g' T R G Hm H; cbn [RM.fin_loop sweep_loop] in *.
-    - inversion H; subst. auto.
+    - inversion H; subst. split; [auto|]. split; [auto | apply Mono_refl].
     - rewrite (rel_pend g s R), abs_pend_nth.
       destruct (nth k (RM.pending g) None) as [q|] eqn:Hn; simpl option_map; cbv iota.
       + assert (Hn' : nth k (pend s) None = Some (idn q)) by (rewrite (rel_pend g s R), abs_pend_nth, Hn; reflexivity).
@@ -634,9 +651,11 @@ Section Glue.
         assert (Hinf : info s0 (idn q) <> None) by (rewrite I1; apply (g_info _ _ G); right; exact Hin).
         unfold RM.finalise in H.
         destruct (Cfinw (Crem f) g1 q) as [g2|] eqn:Hfin; [|discriminate].
-        destruct (HS A g1 s0 q g2 T1' R1' G1 N1 N2 F0 Hinf ltac:(unfold measure in *; lia) Hfin) as [T2 R2].
+        destruct (HS A g1 s0 q g2 T1' R1' G1 N1 N2 F0 Hinf ltac:(unfold measure in *; lia) Hfin) as (T2 & R2 & Mo2).
         destruct (HF A s0 (idn q) G1 N1 N2 F0 Hinf ltac:(unfold measure in *; lia)) as (G2 & _ & _ & _ & M2).
-        apply (IH (S k) A g2 (fin s0 (idn q)) g' T2 R2 G2 ltac:(unfold measure in *; lia) H).
+        destruct (IH (S k) A g2 (fin s0 (idn q)) g' T2 R2 G2 ltac:(unfold measure in *; lia) H) as (T3 & R3 & Mo3).
+        split; [exact T3|]. split; [exact R3|].
+        apply (Mono_trans g g1); [apply Mono_same; reflexivity|]. apply (Mono_trans g1 g2); assumption.
       + apply (IH (S k) A g s g' T R G Hm H).
   Qed.
 
@@ -667,7 +686,7 @@ Section Glue.
   Theorem glue_sweep : forall A g s g',
     TabM g -> RM.pending g = [] -> Rel g s -> GInv A s ->
     Csweep g = Some g' ->
-    Tab g' /\ Rel g' (sweep true finT (c_order g) (c_marks g) s) /\ RM.pending g' = [].
+    Tab g' /\ Rel g' (sweep true finT (c_order g) (c_marks g) s) /\ RM.pending g' = [] /\ Mono g g'.
   Proof.
     intros A g s g' TM Hq R G H.
     pose proof (tm_core g TM) as Hc.
@@ -815,10 +834,13 @@ Section Glue.
     rewrite Hlp in Hfl.
     set (s1m := set_mitems (mitems_rule (length r')) s1) in *.
     destruct (sim_fin_loop finT (S (measure s1m)) (RM.depth g) (finsim_top _ _) (length order) 0 A g2 s1m g3 T2' R2 G2 ltac:(lia) Hfl)
-      as [T3 R3].
-    split; [|split; [|reflexivity]].
+      as (T3 & R3 & Mo3).
+    split; [|split; [|split; [reflexivity|]]].
     - apply (tab_fields g3); auto.
     - constructor; try apply R3. reflexivity.
+    - apply (Mono_trans g g1); [apply (Mono_app g g1 (RP.reclaim_evs rm)); reflexivity|].
+      apply (Mono_trans g1 g2); [apply Mono_same; reflexivity|].
+      apply (Mono_trans g2 g3); [exact Mo3 | apply Mono_same; reflexivity].
   Qed.
 
   (* ---------------------------------------------------------------- 5. histories *)
@@ -952,7 +974,7 @@ Section Glue.
   Lemma glue_collect g s ws g' o :
     RP.Inv hashf g -> RP.Quiet g -> Rel g s -> GInv [] s ->
     Ccollect g ws = (g', o) -> o = RM.OOk ->
-    Rel g' (csweep_after_mark g ws s) /\ GInv [] (csweep_after_mark g ws s) /\ Keep s (csweep_after_mark g ws s).
+    Rel g' (csweep_after_mark g ws s) /\ GInv [] (csweep_after_mark g ws s) /\ Keep s (csweep_after_mark g ws s) /\ Mono g g'.
   Proof.
     intros Hi Hq R G H Ho. pose proof (Inv_Tab g Hi (fun _ => Hq)) as T.
     unfold RM.collect in H. unfold csweep_after_mark.
@@ -968,8 +990,8 @@ Section Glue.
     pose proof (rel_mark g gm s Hpw Hsr R) as Rm.
     pose proof (tabm_mark g gm T Hpw Hsr) as TMm.
     assert (Hqm : RM.pending gm = []) by (destruct Hsr as (_ & _ & _ & _ & _ & Hp & _); rewrite Hp; exact Hq).
-    destruct (glue_sweep [] gm s g2 TMm Hqm Rm G Hsw) as (_ & R2 & _).
-    split; [exact R2|]. split.
+    destruct (glue_sweep [] gm s g2 TMm Hqm Rm G Hsw) as (_ & R2 & _ & Mo2).
+    split; [exact R2|]. split; [|split; [|apply (Mono_trans g gm); [apply Mono_same; apply Hsr | exact Mo2]]].
     - assert (Hpe : pend s = []) by (rewrite (rel_pend g s R), Hq; reflexivity).
       destruct (LifecycleProofs.sweep_ok finT (S (measure s)) (fin_top_ok _) (c_order gm) (c_marks gm) [] s G Hpe ltac:(lia)) as (G' & _).
       exact G'.
